@@ -7,6 +7,11 @@ import torch
 
 from ..par import run_tasks
 from ..report import CONCRETE, INCONCLUSIVE, Report
+import z3
+
+from ..sym.runner import discharge
+from ..sym.scalar import Ctx, approx
+from ..sym.tensor import Session, STensor
 from . import funcops as fo
 from .c01 import common_meta
 
@@ -53,6 +58,93 @@ def validate_terms(cfg: Dict[str, Any]) -> List[Dict[str, Any]]:
              "detail": {"sample_dims": samples, "terms": sym, "measured_all_ones": meas}}]
 
 
+# ------------------------------------------------------------------------------------------ the same weight, another batch size
+# A layer's weight is reused call after call while the batch changes: the exact-unit-scale factors of the later call (the weight and bias
+# gradient scale depends on the batch size) must be those of that call in a fresh state.  No formula is assumed.
+def h_same_weight(readout: bool):
+    from .c05 import _factors
+
+    def h(c: Ctx) -> None:
+        import unit_scaling.functional as U
+        import torch.nn.functional as F
+        n1, n2, a, b = c.dim("n1", 2, 2 ** 20, sample=3), c.dim("n2", 2, 2 ** 20, sample=7), c.dim("a", 2, 2 ** 20, sample=5), c.dim("b", 2, 2 ** 20, sample=4)
+        info = {"history": "same-weight", "readout": readout}
+        fn = U.linear_readout if readout else U.linear
+
+        def mkt(name: str, shape: Tuple[Any, ...]) -> STensor:
+            return STensor.leaf(name, shape, torch.float32, requires_grad=True)
+
+        def call(x: STensor, w: STensor, bias: STensor) -> Tuple[Any, Any, Dict[str, Any]]:
+            return (lambda k: fn(x, w, bias, None)), (lambda: F.linear(x, w, bias)), {"x": x, "w": w, "b": bias}
+
+        with Session():
+            w, bias = mkt("w", (b, a)), mkt("bias", (b,))
+            lib0, ref0, lv0 = call(mkt("x_first", (n1, a)), w, bias)
+            _factors(c, lib0, ref0, lv0, None, "first")
+            lib1, ref1, lv1 = call(mkt("x_second", (n2, a)), w, bias)
+            after = _factors(c, lib1, ref1, lv1, None, "second-after-first")
+        with Session():
+            lib1, ref1, lv1 = call(mkt("x_second'", (n2, a)), mkt("w'", (b, a)), mkt("bias'", (b,)))
+            alone = _factors(c, lib1, ref1, lv1, None, "second-alone")
+        for key in alone:
+            c.oblige(f"{key} factor of a later call with the same weight and another batch size is that of a fresh call", after[key] == alone[key],
+                     info={**info, "claim": key}, tol=approx(after[key], alone[key]))
+        c.oblige("control: later call keeps the first call's weight-gradient factor although the batch differs (must be sat)", z3.And(after["grad[w]"] == alone["grad[w]"] * 2), kind="control")
+
+    return h
+
+
+_SAME_WEIGHT_SCRIPT = r'''
+import json, sys, torch
+import torch.nn.functional as F
+import unit_scaling.functional as U
+readout, n1, n2, a, b, both = json.loads(sys.argv[1])
+fn = U.linear_readout if readout else U.linear
+g = torch.Generator().manual_seed(11)
+w = torch.randn(b, a, generator=g, dtype=torch.float64, requires_grad=True)
+bias = torch.randn(b, generator=g, dtype=torch.float64, requires_grad=True)
+def call(n):
+    x = torch.randn(n, a, generator=g, dtype=torch.float64, requires_grad=True)
+    y, yr = fn(x, w, bias, None), F.linear(x, w, bias)
+    G = torch.randn(y.shape, generator=g, dtype=torch.float64)
+    res = {"fwd": float((y.detach() * yr.detach()).sum() / (yr.detach() ** 2).sum())}
+    gl = torch.autograd.grad(y, [x, w, bias], G)
+    gr = torch.autograd.grad(yr, [x, w, bias], G)
+    for nm, u, v in zip(("x", "w", "b"), gl, gr):
+        res["grad[%s]" % nm] = float((u * v).sum() / (v ** 2).sum())
+    return res
+if both:
+    call(n1)
+print(json.dumps(call(n2)))
+'''
+
+
+def replay_same_weight(obname: str, model: Dict[str, Any], info: Any) -> Tuple[bool, str]:
+    import json
+    import os
+    import subprocess
+    import sys
+    n1, n2, a, b = (min(int(model.get(k, d)), 64) for k, d in (("n1", 3), ("n2", 7), ("a", 5), ("b", 4)))
+    if n1 == n2:
+        n2 = n1 + 1
+    res = []
+    for both in (False, True):
+        p = subprocess.run([sys.executable, "-c", _SAME_WEIGHT_SCRIPT, json.dumps([bool(info.get("readout")), n1, n2, a, b, both])],
+                           capture_output=True, text=True, timeout=600, env=dict(os.environ))
+        if p.returncode != 0:
+            return both, f"same-weight history replay raises: {p.stderr.strip().splitlines()[-1] if p.stderr.strip() else p.returncode}"
+        res.append(json.loads(p.stdout.strip().splitlines()[-1]))
+    alone, after = res
+    bad = [f"{k}: {after[k]!r} after a call with batch {n1}, {alone[k]!r} in a fresh process" for k in alone if abs(after[k] - alone[k]) > 1e-9 * max(abs(alone[k]), 1e-300)]
+    return bool(bad), f"{'linear_readout' if info.get('readout') else 'linear'} with one weight [{b},{a}], batch {n1} then {n2}: " + "; ".join(bad or ["same factors"])
+
+
+def task_same_weight(readout: bool, timeout: float) -> List[Dict[str, Any]]:
+    torch.set_num_threads(1)
+    return discharge("C03", f"history[{'linear_readout' if readout else 'linear'}, same weight, another batch]", h_same_weight(readout), replay_same_weight, timeout,
+                     base_info={"history": "same-weight", "readout": readout}, skip_definedness=True)
+
+
 def run(rep: Report, only: str = "") -> None:
     timeout = 120 if rep.tier == "thorough" else 40
     tasks = []
@@ -61,11 +153,14 @@ def run(rep: Report, only: str = "") -> None:
             if cfg.get("constraint") is None:
                 tasks.append((fo.run_config, ("C03", cfg, ["C03"], timeout)))
                 tasks.append((validate_terms, (cfg,)))
+    tasks += [(task_same_weight, (False, timeout)), (task_same_weight, (True, timeout))]
     if only:
-        tasks = [t for t in tasks if only in repr(t[1])]
+        tasks = [t for t in tasks if only in repr(t[1]) or only in t[0].__name__]
     rep.extend(run_tasks(tasks))
     rep.functions = fo.encoded_functions()
     common_meta(rep)
+    rep.bounds["history"] = ("linear / linear_readout called twice with the SAME weight and bias objects and another batch size (all sizes symbolic): every factor of the "
+                             "later call equals that of the call in a fresh library state; replay in two clean processes")
     rep.bounds["terms"] = ("term counts are stub contracts written from each op's definition (fan_in; fan_out; batch; inner/outer matmul sizes; C_in/groups*k; "
                            "batch*L_out without padding; (C_out/groups)*k/stride averaged over one stride period of interior positions; broadcast sizes; 1/(1-p); 8; "
                            "rows; batch/vocab) and validated on every run against the PyTorch reference run on all-ones tensors at the sample dims")
@@ -75,4 +170,6 @@ def run(rep: Report, only: str = "") -> None:
 
 
 def replay(data: Dict[str, Any]) -> Tuple[bool, str]:
+    if (data.get("info") or {}).get("history") == "same-weight":
+        return replay_same_weight(data["obligation"], data["model"], data.get("info") or {})
     return fo.replay_functional(data["obligation"], data["model"], data.get("info") or {})
